@@ -636,6 +636,65 @@ def job_law_invariants(cfg):
     return res
 
 
+def job_law_reassigned(cfg):
+    """a law object whose public parameters are re-assigned after it was built (Holzapfel-Ogden: fibre directions T1, T2, moduli) evaluates W, dWde
+    and d2Wde exactly like a law built directly with the final parameters - on the REAL state of a symbolic displacement (exp as an opaque
+    function of its argument: equal arguments give the same node)"""
+    from EasyFEA.Models.HyperElastic._state import HyperElasticState
+    from EasyFEA.FEM import MatrixType
+    from EasyFEA import Models
+
+    res = JobResult(cfg)
+    c = new_context()
+    facade.install()
+    dim = cfg["dim"]
+    key = f"HolzapfelOgden dim={dim}: fibres and moduli re-assigned after construction"
+    res.functions |= {"HolzapfelOgden.Compute_W", "HolzapfelOgden.Compute_dWde", "HolzapfelOgden.Compute_d2Wde", "HolzapfelOgden.__init__", "_params.VectorParameter", "HyperElasticState.Compute_I4 / I6 / I8 and tables"}
+    mesh = one_element(dim)
+    g = mesh.groupElem
+    free = [mesh.Nn - 1]  # one node moves (dim symbols): the comparison is between two evaluations of the same formulas, not a derivative identity
+    u, syms = sym_displacement(c, mesh, dim, free)
+    res.symbols = len(syms)
+    T1a, T2a = np.array([0.6, 0.8, 0.0]), np.array([-0.8, 0.6, 0.0])
+    T1b, T2b = (np.array([5 / 13, 12 / 13, 0.0]), np.array([-12 / 13, 5 / 13, 0.0])) if dim == 2 else (np.array([2 / 7, 3 / 7, 6 / 7]), np.array([3 / 7, -6 / 7, 2 / 7]))
+    H = Models.HyperElastic.HolzapfelOgden
+
+    def build(T1, T2, C0=0.5):
+        return H(dim, C0, 1.25, 0.75, 1.5, 0.25, 2.0, 0.125, 1.0, 4.0, 0.5, 0.25, T1, T2, ks=2.0)
+
+    def evaluate(law, uu, symbolic):
+        st = HyperElasticState(g, uu, MatrixType.rigi)
+        return [np.asarray(x, dtype=object if symbolic else float)[0, 0] for x in (law.Compute_W(st), law.Compute_dWde(st), law.Compute_d2Wde(st))]
+
+    def both(uu, symbolic):
+        old = build(T1a, T2a, 0.25)
+        evaluate(old, uu, symbolic)  # the object is used once with its first parameters
+        old.T1, old.T2, old.C0 = T1b, T2b, 0.5
+        return evaluate(old, uu, symbolic), evaluate(build(T1b, T2b), uu, symbolic)
+
+    mark = c.mark()
+    with facade.symbolic():
+        got, want = both(u, True)
+    pcs = c.pc_since(mark)
+    res.paths, res.path_conditions = 1, len(pcs)
+
+    def replay(env):
+        full = fenv(c, env)
+        uf = np.array([float(as_sym(x).eval(full)) for x in u])
+        gf, wf = both(uf, False)
+        errs = [float(np.abs(np.asarray(a, dtype=float) - np.asarray(b, dtype=float)).max() / max(1.0, float(np.abs(np.asarray(b, dtype=float)).max()))) for a, b in zip(gf, wf)]
+        return max(errs) > 1e-9, {"displacement": uf.tolist(), "relative_difference_W_dWde_d2Wde_between_reassigned_and_fresh_law": errs}
+
+    for nm, a, b in zip(("W", "dWde", "d2Wde"), got, want):
+        a, b = np.asarray(a, dtype=object).reshape(-1), np.asarray(b, dtype=object).reshape(-1)
+        close_all(res, f"{key}: {nm} equals the one of a law built with the final parameters", list(zip(a, b)), pcs, replay, f"HolzapfelOgden re-assigned parameters: {nm}",
+                  sample=None if nm != "dWde" else {"obligation": f"{key}: for all nodal displacements in the box, dWde(re-assigned law) - dWde(fresh law) = 0 entrywise"})
+    tw = prove_abs_le(as_sym(np.asarray(got[1], dtype=object).reshape(-1)[0]) - as_sym(np.asarray(want[1], dtype=object).reshape(-1)[0]) * 2, TOL, pcs, "twin")
+    res.twin(f"{key} twin", tw.status == "cex")
+    res.stubs |= facade.USED_STUBS
+    return res
+
+
 def job_tables(cfg):
     """the state's invariant tables are the derivatives of its invariants with respect to the right Cauchy-Green tensor (Kelvin-Mandel coordinates)"""
     from EasyFEA.Models.HyperElastic._state import HyperElasticState
@@ -908,7 +967,7 @@ def job_follower(cfg):
 
 
 def job(cfg):
-    return {"law": job_law, "operator": job_operator, "law_invariants": job_law_invariants, "tables": job_tables, "quadrature": job_quadrature, "follower": job_follower}[cfg["kind"]](cfg)
+    return {"law": job_law, "operator": job_operator, "law_invariants": job_law_invariants, "tables": job_tables, "quadrature": job_quadrature, "follower": job_follower, "law_reassigned": job_law_reassigned}[cfg["kind"]](cfg)
 
 
 def main():
@@ -942,6 +1001,7 @@ def main():
         configs.append({"kind": "quadrature", "law": "Polynomial", "dim": 2, "nPoints": 3})
     for facet in (["QUAD4", "TRI3"] if tier == "quick" else ["QUAD4", "TRI3", "TRI6"]):
         configs.append({"kind": "follower", "facet": facet})
+    configs.append({"kind": "law_reassigned", "dim": 2})  # 3-D: the tangent's normal forms with three exp nodes do not finish in 10 min - outside
     # other time schemes: coefK = 1 (newmark), 3/4 (hht with alpha = 1/4)
     configs.append({"kind": "quadrature", "law": "SaintVenantKirchhoff", "dim": 2, "nPoints": 3, "coefK": "1"})
     configs.append({"kind": "quadrature", "law": "SaintVenantKirchhoff", "dim": 2, "nPoints": 2, "coefK": "3/4"})
